@@ -99,6 +99,15 @@ func runC16(w *W) {
 		BigIDs: t.Chance(1, 2, "sch.bigids"), ManyFields: t.Chance(1, 5, "sch.wide"), Requiredness: true, Recursive: t.Chance(1, 3, "sch.rec"),
 		Defaults: mode != 2 && t.Chance(1, 2, "sch.defaults"), OptionalDefaults: t.Chance(1, 25, "sch.optdefaults"), ConstDefaults: t.Chance(1, 3, "sch.constdefaults"),
 		Aliases: mode != 2 && t.Chance(1, 20, "sch.alias"), NoBinary: true}
+	// deep worlds: long chains of nested structs with wide requires-bitmaps over a small bitmap arena, so
+	// that one conversion outgrows the arena several times while outer levels are still open
+	deep := mode == 0 && t.Chance(1, 8, "c16.deep")
+	if deep {
+		so.Recursive, so.ForceSelf, so.BigIDs = true, true, true
+		knobs.ReqsCap = pickInt(t, "deep.reqscap", 0, 8, 64, 256, -1)
+		w.World.GCNum, w.World.GCDen, w.World.GCBudget = 1, pickInt(t, "deep.gcden", 2, 4, 16), 12
+		w.Sig(fmt.Sprintf("deep:reqs%d", knobs.ReqsCap))
+	}
 	sch := genSchema(t, so)
 	po := thrift.Options{UseDefaultValue: so.Defaults && t.Chance(2, 3, "parse.usedefault"), SetOptionalBitmap: mode != 2 && t.Chance(1, 2, "parse.optbitmap")}
 	desc := parseThrift(w, sch, po)
@@ -117,6 +126,9 @@ func runC16(w *W) {
 		if mode != 0 {
 			vo.NullPct = 0
 			vo.UnknownPct = 0
+		}
+		if deep {
+			vo.Depth, vo.DeepSelf, vo.MaxElems = 3+t.Intn(12, "deep.depth"), 90, 1+t.Intn(2, "deep.elems")
 		}
 		vg := &vgen{t: t, o: vo}
 		val := vg.value(sch.Root, vo.Depth)
